@@ -87,3 +87,36 @@ Proof.
   - destruct (xin g) as [p|]; [apply run_from_ascending, Fx | exact I].
   - destruct (yin g) as [p|]; [apply run_from_ascending, Fy | exact I].
 Qed.
+
+(* the documented outcome of an index-based move, per call: the atom on zone[src_x[i], src_y[j]] ends on zone[dst_x[i], dst_y[j]] *)
+Lemma nth_pick_coords ix cs i : i < length ix -> nth i (pick_coords ix cs) 0%Q = nth (nth i ix 0) cs 0%Q.
+Proof.
+  intros H. unfold pick_coords. rewrite (nth_indep _ 0%Q ((fun k => nth k cs 0%Q) 0) ) by (rewrite map_length; exact H).
+  exact (map_nth (fun k => nth k cs 0%Q) ix 0 i).
+Qed.
+
+Theorem documented_transport_delivers T O ps zx zy sx sy dx dy :
+  transport_ok T O ps = true -> documented_transport zx zy sx sy dx dy ps = true ->
+  exists st', sim_paths (mkast T O [] [] []) ps = AOk st' /\ held st' = [] /\
+    forall i j, i < length sx -> j < length sy ->
+      occ_find (nth (nth i dx 0) zx 0%Q, nth (nth j dy 0) zy 0%Q) (occ st') =
+      occ_find (nth (nth i sx 0) zx 0%Q, nth (nth j sy 0) zy 0%Q) O.
+Proof.
+  intros Ht Hd. unfold documented_transport in Hd.
+  destruct (recognise_transport ps) as [[[[nx ny] w0] ws]|] eqn:R; [|discriminate].
+  repeat match goal with
+         | H : _ && _ = true |- _ => apply andb_true_iff in H; destruct H
+         end.
+  repeat match goal with
+         | H : Nat.eqb _ _ = true |- _ => apply Nat.eqb_eq in H
+         | H : wp_eqb _ _ = true |- _ => apply wp_eqb_eq in H
+         end.
+  destruct (recognised_transport_executable T O ps nx ny w0 ws R Ht) as [st' [E [_ [_ [_ [Hh [Hmove _]]]]]]].
+  exists st'. split; [exact E|]. split; [exact Hh|].
+  intros i j Hi Hj.
+  match goal with
+  | H0 : w0 = _, Hn : last (w0 :: ws) w0 = _ |- _ =>
+      specialize (Hmove i j ltac:(lia) ltac:(lia)); rewrite Hn in Hmove; rewrite H0 in Hmove; simpl fst in Hmove; simpl snd in Hmove
+  end.
+  rewrite !nth_pick_coords in Hmove by lia. exact Hmove.
+Qed.
